@@ -20,6 +20,7 @@ def main():
     ap.add_argument("--cases", type=int)
     ap.add_argument("--no-shrink", action="store_true")
     ap.add_argument("--jobs", type=int)
+    ap.add_argument("--update", action="store_true")
     args = ap.parse_args()
     base_seed = int(os.environ.get("VERIF_SEED", "0"))
     jobs = int(os.environ.get("VERIF_JOBS", "16"))
@@ -41,6 +42,10 @@ def main():
         from selftest import prims_fidelity
 
         sys.exit(prims_fidelity(base_seed))
+    if args.prop == "selftest-reach":
+        from selftest import reach
+
+        sys.exit(reach(update=args.update))
     spec = registry.CHECKS[args.prop]
     if args.replay:
         sys.exit(registry.replay(args.prop, spec, args.replay))
